@@ -27,6 +27,9 @@ RULE = ("C23 schedules on t(pk,a,b) with UNIQUE KEY(a) and CHECK(a<=b), values 0
         "frequently violate; committed table dumped after every statement; non-trivial = a commit attempt with changes; distinct by schedule content")
 ASSUMPTIONS = ["constraints: PRIMARY KEY, UNIQUE, CHECK on a single table; no FOREIGN KEY / NOT NULL; checks not disabled"]
 REQUIRED_TAGS = ["commit-ok", "stmt-constraint-error", "commit-constraint-error", "commit-conflict", "merge-nonff"]
+EXPLANATION = ("The model mirrors uniqValidator.validateDiff including its stale-entry behaviour: a transaction merge that moves a unique value from one row "
+               "to another is refused with a constraint-violation error although the merged table is valid (spurious refusal; committed data stays consistent, "
+               "so the property itself is not violated).")
 
 
 def gen_cases(rng, tier):
@@ -36,6 +39,10 @@ def gen_cases(rng, tier):
         {"init": [[1, 1, 2], [2, 0, 2]], "nsess": 2, "autos": [], "steps": [[0, 5, 1, 0, 2], [1, 5, 1, 1, 1], [0, 1, 0, 0, 0], [1, 1, 0, 0, 0], [1, 3, 0, 0, 0]]},
         {"init": [[1, 1, 2], [2, 0, 2]], "nsess": 2, "autos": [], "steps": [[0, 4, 3, 2, 2], [1, 5, 2, 0, 2], [0, 1, 0, 0, 0], [1, 1, 0, 0, 0], [1, 3, 0, 0, 0]]},
     ]
+    # a valid transaction that moves a unique value between rows while another transaction committed: refused by the
+    # engine's merge-time unique validator (stale index entry) although the merged table is valid
+    cases.append({"init": [[2, 2, -1], [3, 0, 1], [4, -1, 1]], "nsess": 2, "autos": [],
+                  "steps": [[0, 5, 3, 0, 1], [0, 4, 1, 0, 1], [1, 5, 4, 1, 0], [1, 1, 0, 0, 0], [0, 1, 0, 0, 0], [0, 3, 0, 0, 0]]})
     while len(cases) < n:
         c = G.gen_one_txn(rng)
         # initial rows must satisfy the constraints
